@@ -47,11 +47,12 @@ def posFilter (m : MultiAsset) : MultiAsset := MultiAsset.filter m (fun _ _ v =>
 
 def minAda (p : Params) (addr : Bytes) (v : Value) : Int := minLovelace p.cpb { addr := addr, amount := v }
 
-/-- `_adding_asset_make_output_overflow` -/
+/-- `_adding_asset_make_output_overflow`: the attempted value is measured with the larger of its minimum ADA and the coin of
+the output under construction (`attempt_amount.coin = max(required_lovelace, current_amount.coin)`, repair 8c81354) -/
 def overflow (p : Params) (addr : Bytes) (out : Value) (cur : Asset) (pol name : Bytes) (q : Int) : Bool :=
   let attemptAssets := Asset.add cur [(name, q)]
   let attempt := Value.add ⟨0, [(pol, attemptAssets)]⟩ out
-  let attempt' : Value := ⟨minAda p addr attempt, attempt.ma⟩
+  let attempt' : Value := ⟨max (minAda p addr attempt) out.coin, attempt.ma⟩
   decide ((encValue attempt').length > p.maxValSize)
 
 structure PackState where
@@ -65,30 +66,32 @@ structure PackState where
 def flush (out : Value) (pol : Bytes) (temp : Asset) : Value :=
   Value.add out ⟨0, MultiAsset.add [] [(pol, temp)]⟩
 
-/-- body of the inner `for asset_name, asset_value in assets.items()` loop -/
-def packAsset (p : Params) (addr pol : Bytes) (s : PackState) (a : Bytes × Int) : PackState :=
+/-- body of the inner `for asset_name, asset_value in assets.items()` loop; `c0` is `change_estimator.coin`: the output
+opened after a chunk is closed holds the whole change coin, like the first one (`base_coin = Value(coin=change_estimator.coin)`) -/
+def packAsset (p : Params) (addr : Bytes) (c0 : Int) (pol : Bytes) (s : PackState) (a : Bytes × Int) : PackState :=
   let s' : PackState :=
     if overflow p addr s.out s.temp pol a.1 a.2 then
       let out' := if s.temp.isEmpty then s.out else flush s.out pol s.temp
-      { arr := s.arr ++ [out'.ma], out := ⟨0, []⟩, temp := [], old := ⟨0, []⟩ }
+      { arr := s.arr ++ [out'.ma], out := ⟨c0, []⟩, temp := [], old := ⟨c0, []⟩ }
     else s
   { s' with temp := Asset.add s'.temp [a] }
 
 /-- the outer `for policy_id, assets in …` loop; the Boolean is `true` when the `break` was taken -/
-def packPolicies (p : Params) (addr : Bytes) : List (Bytes × Asset) → PackState → PackState × Bool
+def packPolicies (p : Params) (addr : Bytes) (c0 : Int) : List (Bytes × Asset) → PackState → PackState × Bool
   | [], s => (s, false)
   | (pol, assets) :: rest, s =>
     let s0 : PackState := { s with temp := [], old := s.out }
-    let s1 := assets.foldl (packAsset p addr pol) s0
+    let s1 := assets.foldl (packAsset p addr c0 pol) s0
     let out2 := flush s1.out pol s1.temp
-    let upd : Value := ⟨minAda p addr out2, out2.ma⟩
+    let upd : Value := ⟨max (minAda p addr out2) out2.coin, out2.ma⟩
     if (encValue upd).length > p.maxValSize then
       ({ s1 with out := s1.old, temp := [] }, true)
-    else packPolicies p addr rest { s1 with out := out2, temp := [] }
+    else packPolicies p addr c0 rest { s1 with out := out2, temp := [] }
 
 /-- `_pack_tokens_for_change(change_address, change_estimator, max_val_size)` -/
 def packTokens (p : Params) (addr : Bytes) (change : Value) : List MultiAsset × Bool :=
-  let r := packPolicies p addr change.ma { arr := [], out := ⟨change.coin, []⟩, temp := [], old := ⟨change.coin, []⟩ }
+  let r := packPolicies p addr change.coin change.ma
+    { arr := [], out := ⟨change.coin, []⟩, temp := [], old := ⟨change.coin, []⟩ }
   (r.1.arr ++ [r.1.out.ma], r.2)
 
 inductive Err where
